@@ -162,11 +162,189 @@ var preGen = rapid.Custom(func(t *rapid.T) PreFile {
 })
 
 var editGen = rapid.Custom(func(t *rapid.T) Edit {
-	return Edit{
+	e := Edit{
 		Of:    rapid.IntRange(0, 24).Draw(t, "of"),
-		Op:    rapid.SampledFrom([]string{"shrink", "shrink", "empty", "grow", "rewrite", "delete"}).Draw(t, "op"),
+		Op:    rapid.SampledFrom([]string{"shrink", "shrink", "empty", "grow", "rewrite", "delete", "add"}).Draw(t, "op"),
 		Extra: smallContentGen.Draw(t, "extra"),
 	}
+	if e.Op == "add" {
+		pre, suf := genAffixes(t)
+		e.Pre, e.Suf = Name(pre), Name(suf)
+	}
+	return e
+})
+
+// ---- related names: names derived from the name of another entry of the same directory. Helper files of an
+// implementation (temporary, backup, lock, partial-download files) are named exactly like that, next to the
+// file they belong to; a tree may legitimately hold such a name as a file of its own.
+
+var relPrefixes = []string{".", ".", "~", "_", "#", ".#", "._", ".~", "..", "~$", "tmp", "tmp.", ".tmp", ".tmp.", " ", "-", "$", "Copy of ", "new", "old."}
+var relSuffixes = []string{".tmp", ".tmp", ".bak", ".part", ".swp", ".swo", "~", ".", "..", " ", ". ", ".orig", ".old", ".new", ".lock", ".partial",
+	".TMP", ".Tmp", ".1", ".0", "-1", " (1)", "#", "$", "_", ".d", ".zip", ".gz", ",v", ".tmp~"}
+var affixRunes = []rune(".~_-# $tmpbakswo01TMP")
+
+// genAffixes draws a (prefix, suffix) pair, at least one of them non-empty.
+func genAffixes(t *rapid.T) (pre, suf string) {
+	switch k := rapid.IntRange(0, 9).Draw(t, "affixKind"); {
+	case k < 3:
+		suf = rapid.SampledFrom(relSuffixes).Draw(t, "suffix")
+	case k < 5:
+		pre = rapid.SampledFrom(relPrefixes).Draw(t, "prefix")
+	case k < 9:
+		pre = rapid.SampledFrom(relPrefixes).Draw(t, "prefix")
+		suf = rapid.SampledFrom(relSuffixes).Draw(t, "suffix")
+	default:
+		pre = rapid.StringOfN(rapid.RuneFrom(affixRunes), 0, 4, -1).Draw(t, "freePrefix")
+		suf = rapid.StringOfN(rapid.RuneFrom(affixRunes), 0, 5, -1).Draw(t, "freeSuffix")
+		if pre == "" && suf == "" {
+			suf = "~"
+		}
+	}
+	return pre, suf
+}
+
+// deriv describes one extra entry named after an entry the case already has (Of modulo their number).
+// Target: "file" - a file next to a file; "dirfile" - a file next to a directory, named after the directory;
+// "filedir" - a directory (holding the file Inner) next to a file, named after the file.
+// The base name is first stripped (Strip: 1 leading '.', '~', '#', '_'; 2 the last extension; 3 trailing
+// dots and spaces), then its letter case is changed (Case: 1 upper, 2 lower, 3 first letter swapped), then
+// Pre and Suf are added.
+type deriv struct {
+	Target   string
+	Of       int
+	Pre, Suf string
+	Strip    int
+	Case     int
+	Inner    string
+	Content  Content
+}
+
+var derivGen = rapid.Custom(func(t *rapid.T) deriv {
+	d := deriv{
+		Target: rapid.SampledFrom([]string{"file", "file", "file", "file", "dirfile", "filedir"}).Draw(t, "target"),
+		Of:     rapid.IntRange(0, 30).Draw(t, "of"),
+	}
+	switch k := rapid.IntRange(0, 9).Draw(t, "derivKind"); {
+	case k < 6:
+		d.Pre, d.Suf = genAffixes(t)
+	case k < 7: // remove something, add something
+		d.Strip = rapid.IntRange(1, 3).Draw(t, "strip")
+		d.Pre, d.Suf = genAffixes(t)
+	case k < 8: // remove only
+		d.Strip = rapid.IntRange(1, 3).Draw(t, "strip")
+	default: // case variants, with or without affixes
+		d.Case = rapid.IntRange(1, 3).Draw(t, "case")
+		if rapid.Bool().Draw(t, "caseAndAffix") {
+			d.Pre, d.Suf = genAffixes(t)
+		}
+	}
+	if d.Target == "filedir" {
+		d.Inner = genName(t)
+	}
+	d.Content = genContent(t)
+	if d.Content.Pad >= 512<<10 { // the large files are drawn with the file list
+		d.Content.Pad = 700
+	}
+	return d
+})
+
+func swapFirstLetter(s string) string {
+	for i, r := range s {
+		switch {
+		case r >= 'a' && r <= 'z', r >= 'A' && r <= 'Z':
+			return s[:i] + string(r^0x20) + s[i+1:]
+		}
+	}
+	return s
+}
+
+// derivedName applies d to base; "" when nothing changes.
+func derivedName(base string, d deriv) string {
+	n := base
+	switch d.Strip {
+	case 1:
+		n = strings.TrimLeft(n, ".~#_")
+	case 2:
+		if i := strings.LastIndexByte(n, '.'); i > 0 {
+			n = n[:i]
+		}
+	case 3:
+		n = strings.TrimRight(n, ". ")
+	}
+	switch d.Case {
+	case 1:
+		n = strings.ToUpper(n)
+	case 2:
+		n = strings.ToLower(n)
+	case 3:
+		n = swapFirstLetter(n)
+	}
+	if !utf8.ValidString(base) && d.Case != 0 && d.Case != 3 {
+		n = base // ToUpper/ToLower would replace the invalid bytes: keep raw names byte exact
+	}
+	n = d.Pre + truncate(n, 200-len(d.Pre)-len(d.Suf)) + d.Suf
+	if n == base {
+		return ""
+	}
+	return fixName(n)
+}
+
+// applyDeriv appends the entry described by d to the case (File.Dir indices must be < len(c.Dirs) already).
+func applyDeriv(c *TreeCase, d deriv) {
+	nf, nd := len(c.Files), len(c.Dirs)
+	target := d.Target
+	if target != "dirfile" && nf == 0 {
+		target = "dirfile"
+	}
+	if target == "dirfile" && nd == 0 {
+		if nf == 0 {
+			return
+		}
+		target = "file"
+	}
+	switch target {
+	case "file", "filedir":
+		base := c.Files[d.Of%nf]
+		name := derivedName(string(base.Name), d)
+		if name == "" {
+			return
+		}
+		if target == "file" {
+			c.Files = append(c.Files, File{Dir: base.Dir, Name: Name(name), Content: d.Content})
+			return
+		}
+		c.Dirs = append(c.Dirs, Dir{Parent: base.Dir, Name: Name(name)})
+		c.Files = append(c.Files, File{Dir: nd, Name: Name(d.Inner), Content: d.Content})
+	case "dirfile":
+		i := d.Of % nd
+		name := derivedName(string(c.Dirs[i].Name), d)
+		if name == "" {
+			return
+		}
+		parent := -1
+		if c.Dirs[i].Parent >= 0 && i > 0 {
+			parent = c.Dirs[i].Parent % i
+		}
+		c.Files = append(c.Files, File{Dir: parent, Name: Name(name), Content: d.Content})
+	}
+}
+
+var destOpGen = rapid.Custom(func(t *rapid.T) DestOp {
+	return DestOp{
+		Kind: rapid.SampledFrom([]string{"all", "all", "dir", "dir", "dir", "file", "file", "contents"}).Draw(t, "kind"),
+		Of:   rapid.IntRange(0, 24).Draw(t, "of"),
+	}
+})
+
+var roundGen = rapid.Custom(func(t *rapid.T) Round {
+	var r Round
+	if rapid.IntRange(0, 3).Draw(t, "remove") > 0 {
+		r.Remove = rapid.SliceOfN(destOpGen, 1, 3).Draw(t, "removals")
+	}
+	if rapid.IntRange(0, 2).Draw(t, "edit") > 0 { // otherwise: the same archive again
+		r.Edits = rapid.SliceOfN(editGen, 1, 6).Draw(t, "edits")
+	}
+	return r
 })
 
 func genTree(t *rapid.T) TreeCase {
@@ -180,6 +358,20 @@ func genTree(t *rapid.T) TreeCase {
 		maxFiles = 4
 	}
 	c.Files = rapid.SliceOfN(fileGen, rapid.IntRange(0, maxFiles*3/4).Draw(t, "minFiles"), maxFiles).Draw(t, "files")
+	// entries named after other entries of the same directory (appended: the lists above stay as drawn)
+	for i := range c.Files {
+		switch {
+		case len(c.Dirs) == 0:
+			c.Files[i].Dir = -1
+		case c.Files[i].Dir >= 0:
+			c.Files[i].Dir %= len(c.Dirs)
+		}
+	}
+	if rapid.IntRange(0, 1).Draw(t, "relatedNames") == 0 {
+		for _, d := range rapid.SliceOfN(derivGen, 1, 6).Draw(t, "derivs") {
+			applyDeriv(&c, d)
+		}
+	}
 	nd := len(c.Dirs)
 	bigs := 0
 	for i := range c.Files {
@@ -197,8 +389,9 @@ func genTree(t *rapid.T) TreeCase {
 	if rapid.IntRange(0, 2).Draw(t, "prepopulate") == 0 {
 		c.Pre = rapid.SliceOfN(preGen, 1, 6).Draw(t, "pre")
 	}
-	if rapid.IntRange(0, 3).Draw(t, "secondRound") == 0 {
-		c.Edits = rapid.SliceOfN(editGen, 1, 6).Draw(t, "edits")
+	// further rounds into the same destination path: removals in the destination, source edits (or none)
+	if rapid.IntRange(0, 2).Draw(t, "moreRounds") == 0 {
+		c.Rounds = rapid.SliceOfN(roundGen, 1, 3).Draw(t, "rounds")
 	}
 	c.Filter = rapid.SampledFrom([]string{"nil", "nil", "suffix", "suffix", "dir", "notdir", "none"}).Draw(t, "filter")
 	switch c.Filter {
